@@ -1974,7 +1974,13 @@ class Interp(object):
             else:
                 env[pn] = ("unbound-param", pn)
         if callee.kwarg:
-            env[callee.kwarg] = ("kw", tuple(sorted(kwd.items())), dstar[0] if dstar else None)
+            named = list(kwd.items())
+            krest = dstar[0] if dstar else None
+            if isinstance(krest, tuple) and krest and krest[0] == "kw":
+                # **kwargs forwarded from a caller that itself collected them: keep one level
+                named = list(krest[1]) + named
+                krest = krest[2]
+            env[callee.kwarg] = ("kw", tuple(sorted(named)), krest)
         elif kwd:
             exact = False
         return exact
